@@ -173,6 +173,15 @@ func (g *VCGen) run() {
 	}
 	g.initDeferFlags()
 	g.initHeldFlags()
+	// ghost updates declared by the contract happen at entry
+	if g.fc != nil {
+		for _, gs := range g.fc.GhostSets {
+			env := g.ownEnv(g.entry)
+			v := env.tr(gs.C.E)
+			h := g.ghostHeap(gs.Name)
+			g.setHeap(g.cur, h, v.T)
+		}
+	}
 	// vacuity guard: precondition satisfiable
 	g.obls = append(g.obls, Obligation{Name: "vacuity.requires", Kind: "cover", Guard: "true", Goal: "false", NAssert: len(g.asserts),
 		Pos: fn.Prog.Fset.Position(fn.Pos()), Text: "precondition is satisfiable (must be sat)", Func: fn.String()})
